@@ -310,14 +310,14 @@ func (g *e2eGen) newPlan(id int) *callPlan {
 	tp := g.rc.Tape
 	p := &callPlan{id: id, tag: fmt.Sprintf("t%d", id), outcome: "ok"}
 	g.headers(p)
-	methods := []string{"basePing", "baseNote", "echoItem", "doVoid", "add", "blob", "bigString", "many", "choose", "color", "stamp", "headersSeen", "fire"}
+	methods := []string{"basePing", "baseNote", "echoItem", "doVoid", "add", "blob", "bigString", "mixed", "many", "choose", "color", "stamp", "headersSeen", "fire"}
 	switch g.rc.Prop {
 	case "C16":
 		methods = []string{"basePing", "basePing", "basePing", "basePing", "echoItem", "doVoid", "fire", "baseNote"}
 	case "C09":
 		methods = []string{"basePing", "add", "echoItem", "fire", "headersSeen"}
 	case "C12":
-		methods = []string{"blob", "bigString", "blob", "bigString", "add"}
+		methods = []string{"blob", "bigString", "blob", "bigString", "add", "mixed", "mixed"}
 	}
 	p.method = methods[tp.Intn("call", len(methods))]
 	p.dur = []time.Duration{0, 0, time.Millisecond, 7 * time.Millisecond}[tp.Intn("call", 4)]
@@ -370,6 +370,18 @@ func (g *e2eGen) newPlan(id int) *callPlan {
 	case "bigString":
 		p.args = []any{int32(tp.Intn("val", 100)), genString(tp, "val", 10)}
 		p.ret = genString(tp, "val", 40)
+	case "mixed":
+		// a string followed by many one-byte values (what a size limit sees as a big write, then a long run
+		// of tiny ones; the longest runs outgrow a buffer whose capacity the big write had rounded up)
+		mk := func() *simsvc.Mixed {
+			m := &simsvc.Mixed{Pad: genString(tp, "val", 12), Flags: []bool{}}
+			for i, n := 0, []int{0, 1, 7, 300, 3000, 9000, 20000}[tp.Intn("val", 7)]; i < n; i++ {
+				m.Flags = append(m.Flags, (i*7+n)%3 == 0)
+			}
+			return m
+		}
+		p.args = []any{mk()}
+		p.ret = mk()
 	case "many":
 		n := tp.Intn("val", 4)
 		p.args = []any{int32(n)}
@@ -421,7 +433,7 @@ func (g *e2eGen) newPlan(id int) *callPlan {
 	}
 	if g.rc.Prop == "C12" {
 		p.outcome, p.dur = "ok", 0
-		if p.method == "blob" || p.method == "bigString" {
+		if p.method == "blob" || p.method == "bigString" || p.method == "mixed" {
 			g.sizePlan(p)
 		}
 		g.expectBySize(p)
@@ -440,6 +452,8 @@ func (g *e2eGen) requestFrameSize(p *callPlan, ctxHdr map[string]string) int {
 		fields = []rawField{{1, thrift.I32, p.args[0].(int32)}, {2, thrift.STRING, p.args[1].(string)}}
 	case "add":
 		fields = []rawField{{1, thrift.I32, p.args[0].(int32)}, {2, thrift.I32, p.args[1].(int32)}}
+	case "mixed":
+		fields = []rawField{{1, thrift.STRUCT, rawMixed(p.args[0].(*simsvc.Mixed))}}
 	}
 	return len(EncodeFrame(ctxHdr, rawMessage(g.env.proto, p.method, thrift.CALL, fields)))
 }
@@ -452,7 +466,18 @@ func (g *e2eGen) replyFrameSize(p *callPlan, opid string) int {
 	if p.method == "add" {
 		return len(EncodeFrame(h, rawMessage(g.env.proto, p.method, thrift.REPLY, []rawField{{0, thrift.I32, p.ret}})))
 	}
+	if p.method == "mixed" {
+		return len(EncodeFrame(h, rawMessage(g.env.proto, p.method, thrift.REPLY, []rawField{{0, thrift.STRUCT, rawMixed(p.ret.(*simsvc.Mixed))}})))
+	}
 	return len(EncodeFrame(h, rawMessage(g.env.proto, p.method, thrift.REPLY, []rawField{{0, thrift.STRING, p.ret}})))
+}
+
+func rawMixed(m *simsvc.Mixed) []rawField {
+	l := rawList{elem: thrift.BOOL}
+	for _, f := range m.Flags {
+		l.items = append(l.items, f)
+	}
+	return []rawField{{1, thrift.STRING, m.Pad}, {2, thrift.LIST, l}}
 }
 
 // expectBySize derives, at invoke time, what the limits demand for this call
@@ -542,6 +567,8 @@ func (g *e2eGen) shape(p *callPlan, hdr map[string]string, which, d, reqLimit, r
 		ok := false
 		if p.method == "blob" {
 			ok = grow(target, func() int { return g.requestFrameSize(p, hdr) }, func(n int) { p.args[0] = []byte(fill(n)) })
+		} else if p.method == "mixed" {
+			ok = grow(target, func() int { return g.requestFrameSize(p, hdr) }, func(n int) { p.args[0].(*simsvc.Mixed).Pad = fill(n) })
 		} else {
 			ok = grow(target, func() int { return g.requestFrameSize(p, hdr) }, func(n int) { p.args[1] = fill(n) })
 		}
@@ -553,6 +580,8 @@ func (g *e2eGen) shape(p *callPlan, hdr map[string]string, which, d, reqLimit, r
 		ok := false
 		if p.method == "blob" {
 			ok = grow(target, func() int { return g.replyFrameSize(p, hdr["_opid"]) }, func(n int) { p.ret = []byte(fill(n)) })
+		} else if p.method == "mixed" {
+			ok = grow(target, func() int { return g.replyFrameSize(p, hdr["_opid"]) }, func(n int) { p.ret.(*simsvc.Mixed).Pad = fill(n) })
 		} else {
 			ok = grow(target, func() int { return g.replyFrameSize(p, hdr["_opid"]) }, func(n int) { p.ret = fill(n) })
 		}
